@@ -288,8 +288,8 @@ def check_emission(em, expected, ok_outcomes=("Ok", "ret:push_str", "ret:push_by
     for oc2, o2 in em.partial:
         if not _is_prefix(o2, out):
             return "after a failed write the writer went on: %s is not a prefix of %s" % (o2, out)
-        if not (oc2.startswith("Err(") or oc2.startswith("ret:")):
-            return "a failed write is swallowed (path returns %s)" % oc2
+        if not failed_write_outcome(oc2):
+            return "a failed write is swallowed or replaced (path returns %s)" % oc2
     return None
 
 
@@ -309,8 +309,10 @@ def check_refusal(em, code):
 
 
 def failed_write_outcome(oc):
-    """outcome text of a path that returned the error of a failed Formatter call"""
-    return oc.startswith("Err(") or oc.startswith("ret:")
+    """outcome text of a path that returned the error of a failed Formatter call: the call's own result (`ret:...`) or an
+    Err carrying that call's (symbolic) error. An Err with a concrete code of the writer's own choosing means the
+    failure was replaced - a full buffer would then be reported as something other than the formatter's -225."""
+    return oc == "Err(?)" or oc.startswith("ret:")
 
 
 WRITE_CALLS = ("Formatter::push_str", "Formatter::push_byte", "Formatter::push_ascii", "Formatter::data_separator", "ResponseData::format_response_data",
@@ -384,3 +386,49 @@ def check_cases(eng, body, cases):
         if why:
             bad.append("%s: %s" % (label, why))
     return bad
+
+def check_all_writers(R, rule, P):
+    """write discipline of every ResponseData writer of the workspace (lists on 1..3 opaque elements, text and error items
+    on representatives, enum writers on a representative mnemonic, the rest on an unknown value): the result of each
+    fallible write is branched on - its Err returned as it is - or is the return value"""
+    em = engine()
+    EC = "scpi::error::ErrorCode"
+    by_name = {v: d for d, v in (em.enum_tables.get(EC) or {}).items()}
+
+    def reps(self_ty):
+        s = self_ty or ""
+        if s == "&'a [u8]":
+            return [("text", sl(b'a"b'))]
+        if s.endswith("error::Error"):
+            if "DeviceSpecificError" not in by_name:
+                raise facts.AnchorLost("ErrorCode::DeviceSpecificError")
+            cv = EnumV(EC, "DeviceSpecificError", by_name["DeviceSpecificError"], {})
+            return [("plain", AggV("scpi::error::Error", {0: cv, 1: fdai.mk_option(None)})), ("extended", AggV("scpi::error::Error", {0: cv, 1: fdai.mk_option(sl(b"x"))}))]
+        if s.startswith(("alloc::vec::Vec<", "arrayvec::ArrayVec<")):
+            return [("n=%d" % n, fdai.ListV([Cell(SymV("el%d" % i, "el%d" % i), "el%d" % i) for i in range(n)])) for n in (1, 2, 3)]
+        return [("any", TOP)]
+
+    em_enum = engine({"scpi::option::ScpiEnum::mnemonic": (lambda eng_, st, fr, t, name, rname, args: M._mkslice(b"CHannel12"))})
+    n_w = 0
+    for unit in P.units:
+        for b in unit.bodies:
+            if b.name != "format_response_data" or "ResponseData" not in (b.impl_trait or ""):
+                continue
+            n_w += 1
+            why = []
+            eng_w = em
+            if (b.impl_self or "") == "T":
+                # the blanket writer of ScpiEnum types: an enum whose mnemonic is a representative constant
+                eng_w = em_enum
+            for label, val in reps(b.impl_self):
+                try:
+                    res = eng_w.run(b, [RefV(Cell(val, "self")), RefV(Cell(TOP, "fmt"), (), True)])
+                    why += ["%s: %s" % (label, w) for w in check_write_discipline(res)]
+                except (fdai.TooManyPaths, RecursionError) as e:
+                    why.append("%s: undecided (%s)" % (label, type(e).__name__))
+            key = (b.impl_self or "?").split("<(dyn")[0]
+            if "uom::si::Quantity" in key:
+                key = "Quantity#%s" % (b.span or "").split(":")[0].split("/")[-1]
+            R.check(not why, rule, "writer:%s:%s" % (unit.crate, key), "every write's result is examined or returned: a buffer failure inside the writer reaches the handler as its error", "; ".join(why[:3]), where=b.span)
+    R.floor(rule, "ResponseData writers", n_w, 45)
+
